@@ -48,6 +48,19 @@ pub fn c01_shapes(thorough: bool, seed: u64) -> Vec<Shape> {
             s.coef = Coef::Mixed(seed.wrapping_add(29));
             s
         },
+        {
+            let mut s = Shape::new("literal_witness_values", &[Commit, Commit, AllocMul, AllocMul, Mul, Con, ConCommitted], &[&[Chal, AllocMul, Con]]);
+            s.literal_witness = true;
+            s
+        },
+        {
+            let mut s = Shape::new("literal_witness_and_coefficients", &[Commit, AllocMul, Alloc, Alloc, Mul, Con, Con], &[]);
+            s.literal_witness = true;
+            s.coef = Coef::Mixed(seed.wrapping_add(41));
+            s
+        },
+        Shape::new("empty_combination_constrained_first", &[Commit, AllocMul, ConEmpty, Con, Con], &[&[Chal, ConEmpty, Con]]),
+        Shape::new("app_data_between_and_after_commitments", &[Commit, Msg("between".into()), Commit, Msg("after".into()), AllocMul, Con], &[]),
         Shape::new("pending_allocation_across_two_closures", &[Commit, AllocMul], &[&[Chal, Alloc], &[Alloc, Con]]),
         Shape::new("two_different_closures", &[Commit, AllocMul, Con], &[&[Chal, Mul, Con], &[Chal, Msg("second".into()), AllocMul, AllocMul, Con]]),
     ];
@@ -128,7 +141,7 @@ pub fn random_shape(rng: &mut rand_chacha::ChaChaRng, name: &str, max_pad: usize
 }
 
 fn n_explicit_cons(s: &Shape) -> usize {
-    let f = |ops: &[Op]| ops.iter().filter(|o| matches!(o, Con | ConConst | ConCommitted | ConSum | ConTree(_, _))).count();
+    let f = |ops: &[Op]| ops.iter().filter(|o| matches!(o, Con | ConConst | ConCommitted | ConSum | ConEmpty | ConTree(_, _) | ConTreeConst(_, _))).count();
     f(&s.phase1) + s.phase2.iter().map(|p| f(p)).sum::<usize>()
 }
 
@@ -206,6 +219,8 @@ pub fn c03_shapes(thorough: bool, seed: u64) -> Vec<Shape> {
         for k in 0..10 {
             v.push(random_shape(&mut rng, &format!("random{}", k), 8));
         }
+        // every call sequence with <= 3 first-phase and <= 2 second-phase calls
+        v.extend(exhaustive_skeletons(3, 2));
     }
     v
 }
@@ -213,11 +228,14 @@ pub fn c03_shapes(thorough: bool, seed: u64) -> Vec<Shape> {
 /// C15 pipeline: one-constraint circuits `expr - c` over committed and gate variables.
 pub fn c15_pipeline_cases(thorough: bool, seed: u64) -> Vec<(Shape, ErrPlan)> {
     let mut v = vec![];
-    let n = if thorough { 40 } else { 8 };
+    let n = if thorough { 40 } else { 10 };
     for k in 0..n {
         let depth = 1 + (k % 3) as usize;
         let tseed = seed.wrapping_mul(1000).wrapping_add(k as u64);
         let p1: Vec<Op> = match k % 4 {
+            // every other case of this arm: an expression without any variable leaf, as the only or the first constraint
+            0 if k % 8 == 4 => vec![ConTreeConst(tseed, depth + 1)],
+            0 if k % 16 == 8 => vec![Commit, AllocMul, ConTreeConst(tseed, depth + 1), ConTree(tseed + 1, 1)],
             0 => vec![Commit, Commit, AllocMul, ConTree(tseed, depth)],
             1 => vec![Commit, AllocMul, Alloc, Alloc, ConTree(tseed, depth)],
             2 => vec![Commit, Commit, AllocMul, MulTree(tseed, depth), ConTree(tseed + 1, 1)],
@@ -234,5 +252,41 @@ pub fn c06_shapes(thorough: bool, seed: u64) -> Vec<Shape> {
     let mut v = c01_shapes(thorough, seed);
     // a commitment that is the identity point (commit(0,0)) must still be absorbed
     v.push(Shape::new("identity_commitment", &[Commit, CommitZero, Commit, AllocMul, Con], &[]));
+    if thorough {
+        // every call sequence with <= 3 first-phase and <= 2 second-phase calls
+        v.extend(exhaustive_skeletons(3, 2));
+    }
+    v
+}
+
+/// Every call sequence over {Commit, AllocMul, Alloc, Mul, Con} with at most `max1` first-phase calls,
+/// followed by no closure or one closure with at most `max2` calls over {Chal, Alloc, Mul, Con}.
+pub fn exhaustive_skeletons(max1: usize, max2: usize) -> Vec<Shape> {
+    fn seqs(alpha: &[Op], max: usize) -> Vec<Vec<Op>> {
+        let mut out = vec![vec![]];
+        let mut frontier: Vec<Vec<Op>> = vec![vec![]];
+        for _ in 0..max {
+            let mut next = vec![];
+            for s in frontier.iter() {
+                for o in alpha {
+                    let mut t = s.clone();
+                    t.push(o.clone());
+                    next.push(t);
+                }
+            }
+            out.extend(next.iter().cloned());
+            frontier = next;
+        }
+        out
+    }
+    let a1 = [Commit, AllocMul, Alloc, Mul, Con];
+    let a2 = [Chal, Alloc, Mul, Con];
+    let mut v = vec![];
+    for (i, p1) in seqs(&a1, max1).iter().enumerate() {
+        for (j, p2) in seqs(&a2, max2).iter().enumerate() {
+            let refs: Vec<&[Op]> = if j == 0 { vec![] } else { vec![p2.as_slice()] };
+            v.push(Shape::new(&format!("exh_{}_{}", i, j), p1, &refs));
+        }
+    }
     v
 }
